@@ -51,9 +51,9 @@ var props = []Prop{
 	{
 		ID: "C02",
 		Harnesses: []H{{Pkg: "ecs", Fn: "HC02_PoolGet"}, {Pkg: "ecs", Fn: "HC02_PoolRecycle"}, {Pkg: "ecs", Fn: "HC02_PoolRecycleWrap", NoSample: true}, {Pkg: "ecs", Fn: "HC02_IntPool", W: 4},
-			{Pkg: "ecs", Fn: "HC02_World"}, {Pkg: "ecs", Fn: "HC02_World", Tags: "tiny", Tier: "thorough"}},
+			{Pkg: "ecs", Fn: "HC02_World"}, {Pkg: "ecs", Fn: "HC02_WorldRel"}, {Pkg: "ecs", Fn: "HC02_World", Tags: "tiny", Tier: "thorough"}},
 		Conform: stdConform,
-		Bounds:  "(a) entityPool.Get/Recycle one-step lemmas from an arbitrary well-formed pool: up to 6 slots, every free-list shape, fully symbolic 32-bit generations (bounded claim: generations < 2^32-1; the unbounded variant HC02_PoolRecycleWrap exposes the wrap-around, a known finding), two ghost handles; intPool histories to depth 6; (b) world level: 3 prefixes (fresh / populated / free-list depth 3 with mixed generations) x 2 (thorough 3) operations out of NewEntity, NewBatch/NewBatchQ (symbolic count 1..4), RemoveEntity, Batch.RemoveEntities, Reset, DumpEntities+Reset+LoadEntities; 3 configurations",
+		Bounds:  "(a) entityPool.Get/Recycle one-step lemmas from an arbitrary well-formed pool: up to 6 slots, every free-list shape, fully symbolic 32-bit generations (bounded claim: generations < 2^32-1; the unbounded variant HC02_PoolRecycleWrap exposes the wrap-around, a known finding), two ghost handles; intPool histories to depth 6; (b) world level: 3 prefixes (fresh / populated / free-list depth 3 with mixed generations) x 2 (thorough 3) operations out of NewEntity, NewBatch/NewBatchQ (symbolic count 1..4), RemoveEntity, Batch.RemoveEntities, Reset, DumpEntities+Reset+LoadEntities; 3 configurations; HC02_WorldRel: the same on a world with relation tables (zero target, alive or dead target, two nodes) so that Reset and filter removals meet every kind of table",
 		Outside: "pools with more than 6 slots in the lemmas (the code is uniform in the slot count); generation wrap-around after 2^32 recycles of one id (known finding); more than 10 entities at world level",
 	},
 	{
